@@ -4,9 +4,11 @@
 // Canonical doubles are produced exactly as for the production XORWOW engine
 // (GenerateCanonical specialisation -> detail::GenerateCanonical32: upper word, then lower
 // word), so a "canonical draw" consumes two 32-bit words.  The script forces the *upper*
-// word of the i-th canonical; the lower word of a scripted canonical is `lower_fill`
-// (default 0x80000000, i.e. the value sits in the middle of its 2^-32 cell), so an exactly
-// zero canonical can never be produced unless lower_fill is set to 0 on purpose.
+// word of the i-th canonical; the lower word of a scripted canonical is `lower_fill`.
+// GenerateCanonical32<double> computes ((upper << 21) ^ lower) / 2^53, so the default
+// lower_fill = 0x00100000 (bit 20) gives exactly (upper + 1/2) / 2^32: the middle of the
+// 2^-32 cell.  An exactly zero canonical can never be produced unless lower_fill is set to
+// 0 on purpose.
 //
 // Raw 32-bit draws (engine() called directly, e.g. by code that wants integers) consume
 // script entries too: the script is a list of 32-bit words for "odd-numbered" (upper)
@@ -48,7 +50,7 @@ class ScriptedEngine
     //! script: forced upper words of the first canonicals; tail_seed selects the tail stream
     explicit ScriptedEngine(std::vector<uint32_t> script,
                             uint64_t tail_seed = 0,
-                            uint32_t lower_fill = 0x80000000u)
+                            uint32_t lower_fill = 0x00100000u)
         : script_(std::move(script)), lower_fill_(lower_fill), s_(tail_seed * 0x9e3779b97f4a7c15ull + 0x1234567)
     {
     }
@@ -81,7 +83,7 @@ class ScriptedEngine
         return uint32_t((z ^ (z >> 31)) >> 32);
     }
     std::vector<uint32_t> script_;
-    uint32_t lower_fill_{0x80000000u};
+    uint32_t lower_fill_{0x00100000u};
     uint64_t s_{0x1234567};
     uint64_t words_{0};
 };
